@@ -2,3 +2,4 @@ SPECIFICATION Spec
 CONSTANT EBug = "none"
 INVARIANT Final
 CHECK_DEADLOCK FALSE
+VIEW TraceView
